@@ -96,3 +96,28 @@ def class_const(repo, cname, name):
     if name not in env:
         raise AnalysisError(f"{cname}.{name} is not defined by the class body")
     return env[name]
+
+
+def started_tasks(repo, fi):
+    """[(coroutine expression, task name, task key, cfg node)] for every `add_task(coro, name, key)` call in `fi`,
+    with single-definition locals of the function replaced by their defining expressions - so the residue of an
+    inlined helper (`h = Handler(); c = h.consume(p); add_task(c, name, KEY)`) reads like the direct call.
+    name / key are folded constants or None."""
+    from .cfg import cfg_of
+    from .src import call_name
+    g = cfg_of(fi)
+    out = []
+    for n in g.stmt_nodes():
+        for c in n.calls():
+            if call_name(c) != "add_task" or not c.args:
+                continue
+            try:
+                args = [g.expand(a, at=n) for a in c.args]
+            except RecursionError:
+                args = list(c.args)
+            kw = {k.arg: k.value for k in c.keywords if k.arg}
+            name = args[1] if len(args) > 1 else kw.get("name_")
+            key = args[2] if len(args) > 2 else kw.get("key_")
+            out.append((args[0], repo.try_fold(name, fi.mod, fi.cls) if name is not None else None,
+                        repo.try_fold(key, fi.mod, fi.cls) if key is not None else None, n))
+    return out
